@@ -125,20 +125,33 @@ def quoteGrl (s : String) : Snap :=
     else if c == '\n' then ['\\', 'n'] else if c == '\t' then ['\\', 't'] else if c == '\r' then ['\\', 'r'] else [c]
   ['"'] ++ (s.toList.flatMap esc) ++ ['"']
 
-/-- literal text of a constant; float literal text comes from the scenario (`ft`) -/
-def textC (ft : UInt64 → String) : Const → Snap
-  | .str s => quoteGrl s
-  | .int i => intChars i
-  | .float b => (ft b).toList
-  | .bool b => (toString b).toList
-  | .nil => "nil".toList
+/-- the source text of a literal where it is known (`GetText()` of the literal's parse-tree node): float texts always
+    come from here, the other kinds fall back to the canonical notation -/
+abbrev LitText := Const → Option String
+
+/-- a float-text table as a `LitText` -/
+def LitText.ofFloats (ft : UInt64 → String) : LitText
+  | .float b => some (ft b)
+  | _ => none
+
+/-- literal text of a constant -/
+def textC (ft : LitText) (c : Const) : Snap :=
+  match ft c with
+  | some t => t.toList
+  | none =>
+    match c with
+    | .str s => quoteGrl s
+    | .int i => intChars i
+    | .float _ => "?".toList
+    | .bool b => (toString b).toList
+    | .nil => "nil".toList
 
 mutual
-  def textE (ft : UInt64 → String) : Expr → Snap
+  def textE (ft : LitText) : Expr → Snap
     | .bin op l r => textE ft l ++ (op.snap ++ textE ft r)
     | .paren neg e => bangIf neg ++ ("(".toList ++ (textE ft e ++ t_close))
     | .atom a => textA ft a
-  def textA (ft : UInt64 → String) : Atom → Snap
+  def textA (ft : LitText) : Atom → Snap
     | .const c => textC ft c
     | .var v => textV ft v
     | .call f args => f.toList ++ ("(".toList ++ (textArgs ft args ++ t_close))
@@ -146,11 +159,11 @@ mutual
     | .member recv n => textA ft recv ++ (".".toList ++ n.toList)
     | .sel recv idx => textA ft recv ++ ("[".toList ++ (textE ft idx ++ "]".toList))
     | .neg a => t_bang ++ textA ft a
-  def textV (ft : UInt64 → String) : Var → Snap
+  def textV (ft : LitText) : Var → Snap
     | .root n => n.toList
     | .field v n => textV ft v ++ (".".toList ++ n.toList)
     | .index v e => textV ft v ++ ("[".toList ++ (textE ft e ++ "]".toList))
-  def textArgs (ft : UInt64 → String) : Args → Snap
+  def textArgs (ft : LitText) : Args → Snap
     | .nil => []
     | .cons e .nil => textE ft e
     | .cons e rest => textE ft e ++ (t_comma ++ textArgs ft rest)
